@@ -3611,6 +3611,10 @@ void SGXMLScanner::resolveSchemaGrammar(const XMLCh* const loc, const XMLCh* con
         parser.setDoNamespaces(true);
         parser.setUserEntityHandler(fEntityHandler);
         parser.setUserErrorReporter(fErrorReporter);
+        // the schema document is an external resource of this parse: same entity and DTD policy
+        parser.setDisableDefaultEntityResolution(fDisableDefaultEntityResolution);
+        parser.setLoadExternalDTD(fLoadExternalDTD);
+        parser.setSecurityManager(fSecurityManager);
 
         //Normalize sysId
         XMLBufBid nnSys(&fBufMgr);
@@ -3940,6 +3944,10 @@ Grammar* SGXMLScanner::loadXMLSchemaGrammar(const InputSource& src,
     parser.setDoNamespaces(true);
     parser.setUserEntityHandler(fEntityHandler);
     parser.setUserErrorReporter(fErrorReporter);
+    // the schema document is an external resource of this parse: same entity and DTD policy
+    parser.setDisableDefaultEntityResolution(fDisableDefaultEntityResolution);
+    parser.setLoadExternalDTD(fLoadExternalDTD);
+    parser.setSecurityManager(fSecurityManager);
 
     // Should just issue warning if the schema is not found
     bool flag = src.getIssueFatalErrorIfNotFound();
